@@ -33,6 +33,8 @@ hmod!(pub(crate) c03, "c03.rs");
 #[cfg(all(not(feature = "shuttle"), feature = "descriptive-gate"))]
 hmod!(pub(crate) c04, "c04.rs");
 #[cfg(all(not(feature = "shuttle"), feature = "descriptive-gate"))]
+hmod!(pub(crate) c04m, "c04m.rs");
+#[cfg(all(not(feature = "shuttle"), feature = "descriptive-gate"))]
 hmod!(pub(crate) c05, "c05.rs");
 #[cfg(all(not(feature = "shuttle"), feature = "descriptive-gate"))]
 hmod!(pub(crate) c05b, "c05b.rs");
